@@ -166,6 +166,16 @@ def run(ctx):
                 ctx.violation("oracle", {"call": "westfall_young-rotations", "table": D, "method": method, "alternatives": alts, "numerators": mins,
                                          "issue": f"{sum(1 for v in mins if v <= kk)} of {B} exchangeable rows get a smallest adjusted p-value <= {kk}/{B}"}, site="westfall_young")
                 break
+    # ---- what one call handed back must not change when the function is called again (no shared result objects)
+    for method_ in ("minP", "maxT"):
+        e1, t1, _ = scripted_experiment([[1, 2], [2, 1], [0, 3]], [2, 2]); e2, t2, _ = scripted_experiment([[5, 0], [0, 5], [1, 1]], [0, 4])
+        a = guarded(npc.westfall_young, e1, t1, method=method_, alternatives="greater", reps=3)
+        keep = None if a[0] != "ok" else (dict(a[1][0]), dict(a[1][1]))
+        b = guarded(npc.westfall_young, e2, t2, method=method_, alternatives="two-sided", reps=3)
+        ctx.case(("stable-result", method_), True); ctx.count("result-stability")
+        if a[0] != "ok" or b[0] != "ok" or (dict(a[1][0]), dict(a[1][1])) != keep:
+            ctx.violation("oracle", {"call": "westfall_young", "method": method_, "issue": "the dictionaries returned by one call changed when westfall_young was called again (shared result object)",
+                                     "first_now": str(a[1:])[:200], "first_then": str(keep)[:200]}, site="westfall_young")
     # ---- argument validation
     e, tests, _ = scripted_experiment([[0, 1]], [1, 0])
     for kw, what in [({"alternatives": "less"}, "unsupported alternative"), ({"alternatives": ["greater"]}, "list of wrong length"),
